@@ -4,7 +4,7 @@
 # outside /repo and /verif, then runs the given checks against the scratch copy. Development-time only.
 set -u
 D="$1"; shift
-S=/var/tmp/seedcopy
+S=${SCRATCH_COPY:-/var/tmp/seedcopy}
 rm -rf $S && mkdir -p $S && (cd /repo && git archive HEAD | tar -x -C $S)
 cd $S
 echo "--- demo on unchanged copy"; PYTHONPATH=$S /venv/bin/python "$D/demo.py" >/dev/null 2>&1; echo "exit=$?"
@@ -15,7 +15,6 @@ cd /verif
 for c in "$@"; do
   tier=quick; id=$c
   case $c in *:thorough) tier=thorough; id=${c%%:*};; esac
-  echo "--- check $id $tier"; VERIF_REPO=$S timeout 1800 ./check $id --tier $tier 2>&1 | grep -E " x |$tier:|MACHINERY|KNOWN" > /var/tmp/seedout.txt; head -3 /var/tmp/seedout.txt | cut -c1-220; grep -E "$tier:|MACHINERY" /var/tmp/seedout.txt | cut -c1-220
+  echo "--- check $id $tier"; VERIF_REPO=$S timeout 1800 ./check $id --tier $tier 2>&1 | grep -E " x |$tier:|MACHINERY|KNOWN" > $S.out.txt; head -3 $S.out.txt | cut -c1-220; grep -E "$tier:|MACHINERY" $S.out.txt | cut -c1-220
 done
-rm -rf /verif/.work/scratch-replays /verif/.work/scratch-evidence
-rm -rf $S
+rm -rf $S $S.out.txt
